@@ -127,6 +127,29 @@ DRV_CMD(map_read, "map.read") {
   return r.ok ? dump(r.map, r.consumed) : "err";
 }
 
+// map.readat <m|s> <skip> <data> : the reader is handed over at position <skip> (the map starts there); heap copy of exactly
+// the given bytes, so a read beyond the stream is a sanitizer fault.  Then a second read from the same reader where the
+// first one stopped ("2nd=": whatever follows must be parsed or refused on its own, the stream length is the limit).
+DRV_CMD(map_readat, "map.readat") {
+  char kind = kindOf(need(a, 0)); std::size_t skip = static_cast<std::size_t>(toU64(need(a, 1))); std::string bytes = dataExpr(need(a, 2));
+  if (skip > bytes.size()) throw BadOp();
+  std::vector<char> heap(bytes.begin(), bytes.end());
+  Stream::MemoryReader rd(heap.data(), heap.size());
+  rd.Seek(skip);
+  auto once = [&]() -> std::string {
+    uint64_t start = rd.Position();
+    try {
+      Map m = kind == 'm' ? Map::ReadMap(rd) : Map::ReadSavedGame(rd);
+      if (rd.Position() > heap.size()) return "POSITION-BEYOND-END";
+      return dump(m, rd.Position() - start);
+    } catch (const std::bad_alloc&) { throw; } catch (const std::length_error&) { throw; }
+    catch (const std::exception&) { return "err"; }
+  };
+  std::string first = once();
+  if (first == "err" || first == "POSITION-BEYOND-END") return first;
+  return first + " 2nd=" + once();
+}
+
 // map.file <m|s> <data> : the same through the file-name overloads (FileReader backend)
 DRV_CMD(map_file, "map.file") {
   char kind = kindOf(need(a, 0)); std::string bytes = dataExpr(need(a, 1));
